@@ -4,7 +4,9 @@
 //! branch graphs, so node ids collide between branches), and a weight shared
 //! between a plain MatMul and a Transpose->MatMul - are loaded with prepacking
 //! on/off and optimisation on/off and run with different thread pools.
-//! Integer-valued f32 data, so the product is exact.
+//! Integer-valued f32 data, so the product is exact.  The `mmint` family does the
+//! same with MatMulInteger: u8 input, constant i8 weight (prepacked at load time,
+//! before the zero points are known), scalar / per-column zero points.
 
 use std::sync::Arc;
 
@@ -43,6 +45,9 @@ struct Case {
     x: Vec<i32>,
     x2: Vec<i32>,
     conds: Vec<i32>,
+    /// MatMulInteger only: LHS zero point and RHS zero points (one per column, or a single one).
+    azp: i32,
+    bzp: Vec<i32>,
     ws: Vec<Vec<i32>>,
     model: Vec<u8>,
     outs: Vec<&'static str>,
@@ -58,6 +63,9 @@ fn make_case(kind: &'static str, rng: &mut Rng) -> Case {
     let mut g = OGraph::default();
     g.inputs = vec![ValueInfo::fixed("x", onnx::FLOAT, &[m as i64, k as i64])];
     let mut ws = Vec::new();
+    let mut azp = 0;
+    let mut bzp: Vec<i32> = Vec::new();
+    let mut x = x;
     let outs: Vec<&'static str>;
     match kind {
         "chain" => {
@@ -106,9 +114,36 @@ fn make_case(kind: &'static str, rng: &mut Rng) -> Case {
             ];
             outs = vec!["y", "z"];
         }
+        "mmint" => {
+            // y = (x - azp) x (w - bzp[col]); the weight is a constant, the zero points are constants
+            // given as separate inputs of the operator.
+            x = (0..m * k).map(|_| rng.below(10) as i32).collect();
+            ws.push(rand_mat(rng, k * n));
+            azp = *rng.pick(&[0i32, 0, 1, 2, 3]);
+            bzp = match rng.below(4) {
+                0 => vec![0],
+                1 => vec![rng.range(-2, 2) as i32],
+                2 if n > 1 => vec![0; n],
+                _ if n > 1 => (0..n).map(|_| rng.range(-2, 2) as i32).collect(),
+                _ => vec![rng.range(-2, 2) as i32],
+            };
+            g.inputs = vec![ValueInfo::fixed("x", onnx::UINT8, &[m as i64, k as i64])];
+            g.initializers = vec![
+                OTensor { name: "w".into(), dims: vec![k as i64, n as i64], data: TensorData::I8(ws[0].iter().map(|v| *v as i8).collect()) },
+                OTensor { name: "azp".into(), dims: vec![], data: TensorData::U8(vec![azp as u8]) },
+                OTensor {
+                    name: "bzp".into(),
+                    dims: if bzp.len() == 1 { vec![] } else { vec![bzp.len() as i64] },
+                    data: TensorData::I8(bzp.iter().map(|v| *v as i8).collect()),
+                },
+            ];
+            g.nodes = vec![ONode::new("MatMulInteger", &["x", "w", "azp", "bzp"], &["y"])];
+            outs = vec!["y"];
+        }
         _ => unreachable!(),
     }
-    g.outputs = outs.iter().map(|o| ValueInfo::new(o, onnx::FLOAT, None)).collect();
+    let out_type = if kind == "mmint" { onnx::INT32 } else { onnx::FLOAT };
+    g.outputs = outs.iter().map(|o| ValueInfo::new(o, out_type, None)).collect();
     Case {
         kind,
         m,
@@ -117,6 +152,8 @@ fn make_case(kind: &'static str, rng: &mut Rng) -> Case {
         x,
         x2,
         conds,
+        azp,
+        bzp,
         ws,
         model: g.to_model(),
         outs,
@@ -131,7 +168,12 @@ fn run_cfg(c: &Case, prepack: bool, optimize: bool, threads: usize) -> serde_jso
         let model = opts.load(c.model.clone()).map_err(|e| format!("load: {e}"))?;
         let x = Tensor::from_data(&[c.m, c.k], c.x.iter().map(|v| *v as f32).collect::<Vec<_>>());
         let x2 = Tensor::from_data(&[c.m, c.n], c.x2.iter().map(|v| *v as f32).collect::<Vec<_>>());
-        let mut inputs: Vec<(rten::NodeId, ValueOrView)> = vec![(model.node_id("x").unwrap(), x.view().into())];
+        let xu8 = Tensor::from_data(&[c.m, c.k], c.x.iter().map(|v| *v as u8).collect::<Vec<_>>());
+        let mut inputs: Vec<(rten::NodeId, ValueOrView)> = if c.kind == "mmint" {
+            vec![(model.node_id("x").unwrap(), xu8.view().into())]
+        } else {
+            vec![(model.node_id("x").unwrap(), x.view().into())]
+        };
         if let Some(id) = model.find_node("x2") {
             inputs.push((id, x2.view().into()));
         }
@@ -159,6 +201,9 @@ fn run_cfg(c: &Case, prepack: bool, optimize: bool, threads: usize) -> serde_jso
                         let exact = t.iter().all(|f| f.fract() == 0.0 && f.abs() < 1.0e6);
                         json!({"shape": t.shape().to_vec(), "exact": exact, "data": t.iter().map(|f| *f as i32).collect::<Vec<i32>>()})
                     }
+                    Value::Int32Tensor(t) => {
+                        json!({"shape": t.shape().to_vec(), "exact": true, "data": t.iter().copied().collect::<Vec<i32>>()})
+                    }
                     _ => json!({"shape": [], "exact": false, "data": []}),
                 })
                 .collect()
@@ -179,11 +224,11 @@ pub fn main_prepack() {
     vcommon::quiet_panics();
     let mut tr = Trace::create(&out);
     let mut rng = Rng::from_env();
-    let kinds = ["chain", "if", "if2", "shared"];
+    let kinds = ["chain", "if", "if2", "shared", "mmint"];
     for ci in 0..n {
         let c = make_case(kinds[ci % kinds.len()], &mut rng);
         tr.emit(json!({"ev": "pcase", "case": ci, "kind": c.kind, "m": c.m, "k": c.k, "n": c.n,
-                       "x": c.x, "x2": c.x2, "conds": c.conds, "ws": c.ws}));
+                       "x": c.x, "x2": c.x2, "conds": c.conds, "ws": c.ws, "azp": c.azp, "bzp": c.bzp}));
         for prepack in [false, true] {
             for optimize in [false, true] {
                 let threads = *rng.pick(&[0usize, 1, 4]);
